@@ -569,5 +569,5 @@ func TestVerifC04(t *testing.T) {
 			c04NS.Shutdown()
 		}
 	}()
-	vfutil.Run(t, vfutil.Spec[c04Case]{ID: "C04", Gen: genC04, Run: runC04})
+	vfutil.Run(t, vfutil.Spec[c04Case]{ID: "C04", Gen: genC04, Run: runC04, Journal: true})
 }
